@@ -605,6 +605,9 @@ func (c *codegen) seq(list []ast.Stmt, k cont) []string {
 }
 
 func (c *codegen) ifStmt(x *ast.IfStmt, rest []ast.Stmt, k cont) []string {
+	if y := c.splitAndIf(x); y != nil { // code_lend.go: `if A && B {…}` with a B that may panic
+		return c.ifStmt(y, rest, k)
+	}
 	outerDepth := len(c.cur.scopes)
 	c.push() // scope of the if statement (init variables)
 	var lines []string
@@ -1059,14 +1062,19 @@ func (c *codegen) assign1(lhs, rhs ast.Expr, def bool, at ast.Node) []string {
 				if t.kind == kInvalid {
 					c.fail(at, "value of %s has no type", c.src(rhs))
 				}
-				if c.phase3 {
+				view := c.viewDefine(id.Name, at) // code_lend.go: a range-only variable is a block-scoped read-only view
+				if c.phase3 && view == nil {
 					c.checkNoSliceAlias(t, lhs, rhs, at)
 				}
 				if t.kind == kIface {
 					c.ifaceMoved(rhs, at)
 				}
 				v := c.declare(id.Name, t)
-				c.noteSliceAlias(v, nil, t, rhs, at)
+				if view != nil {
+					c.noteViewAlias(v, t, rhs, at, view)
+				} else if !c.lendDefine(id.Name, at) { // code_lend.go: a lent window is no alias
+					c.noteSliceAlias(v, nil, t, rhs, at)
+				}
 				return []string{fmt.Sprintf("let %s : %s := %s", v.lean, t.lean(), val)}
 			}
 		}
